@@ -406,11 +406,13 @@ HAND = {
     'same_rule_twice_temp': '#r: /_x & {_x: "a"|"b"}\n#s: /#r/#r\n',
     'same_rule_twice_named': '#r: /x/_y & {_y: "a"|"b"}\n#s: /#r/"m"/#r\n',
     'redefinition': '#r: /"a"/x\n#r: /"b"/x/y\n#s: /#r/"c" <= #r\n',
+    'redef_ref_not_last': '#z: /#a/"x"\n#z: /"y"\n#a: /"k"/n\n#s: /#z/"c" <= #a\n',
     'temp_rule': '#_t: /"a"/x\n#_t: /"b"\n#s: /"c"/x <= #k\n#k: /"k"/x\n',
     'multi_option_sets': '#r: /x/y & {x: "a"|"b", y: "c"} | {x: "c"}\n#k: /"k"/x\n#s: /#r/"z" <= #k\n',
     'pattern_option': '#r: /x/y/z & {z: x|"c"}\n',
     'later_pattern_option': '#r: /x/y & {x: y}\n',
     'eq_fn': '#r: /x/y & {y: $eq(x)}\n#s: /x/y & {y: $eq("a", x)}\n',
+    'eq_fn_two_positions': '#r1: /a/_/b & {b: $eq(a)}\n#r2: /_/a/b & {b: $eq(a)}\n',
     'eq_type': '#r: /x/_v & {_v: $eq_type("v=0")}\n#s: /"a"/_v & {_v: $eq_type("a")}\n',
     'sign_shared_constrained': '#pkt: /"a"/x <= #key\n#key: /"k"/x & {x: "g"}\n',
     'sign_chain': '#a: /"a"/x/y <= #b\n#b: /"b"/x <= #c | #d\n#c: /"c"/_\n#d: /"d"/x/_z & {_z: "a"|"b"}\n',
